@@ -67,6 +67,19 @@
 //	assertion  v, ok := x.(T) on a sum interface, T a registered implementation.
 //	shadowing  a local that shadows an EARLIER-declared local of the same function is rejected.
 //	capacity   not modelled: s[lo:hi] is checked against len(s) (stricter than Go's cap(s)).
+//	recursion  (round 5) a function that calls ITSELF is a Fixpoint on an extra first parameter
+//	           fuel_ : nat; running out of fuel is GPanic, never an answer, and the bridge lemma states
+//	           how much fuel suffices. Calls go to earlier-registered functions only: a forward
+//	           reference (hence mutual recursion) is rejected; a fuel function may not be called from
+//	           another translated function.
+//	sum lists  (round 5) []I of a sum interface I: nil, []I{}, make([]I, 0, c), append, len. A record
+//	           reachable from the sum and holding such a list is emitted in ONE mutual Inductive with
+//	           the sum (constructor mk_T, projections and setters as Definitions).
+//	floats     (round 5) float32 / float64 are their IEEE-754 bit patterns (Z): math.FloatNNbits and
+//	           math.FloatNNfrombits are identities, float64(float32) is go_f32_widen (GoSlice.v).
+//	           Arithmetic, comparison and float64 -> float32 are rejected.
+//	[]bool     (round 5) make([]bool, n) and b[i] = v (go_make_g / go_set_g); unsafe.String over
+//	           unsafe.SliceData is the byte list.
 //
 // Output: one Coq Module per package (dependency order), generated Records for the struct types
 // used, an Inductive per sum interface, and one `Definition f ... : gres T` per function, each
@@ -280,6 +293,8 @@ type fnInfo struct {
 	mod, name string
 	decl      *ast.FuncDecl
 	mut       bool // pointer-receiver method that writes through its receiver: state-passing translation
+	fuel      bool // self-recursive: translated as a Fixpoint on an explicit fuel : nat first parameter
+	seq       int  // emission order: a call may only go to an earlier function (or to the function itself)
 }
 
 type recField struct {
@@ -294,6 +309,7 @@ type recField struct {
 type recInfo struct {
 	mod, name string
 	fields    []recField
+	inSum     bool     // declared in the same mutual block as a sum interface it refers to
 	calls     []string // constructors of the call-log Inductive: "Name_call_m (a : T) ..."
 	iface     bool     // an external interface object (emitted after the sum interfaces)
 }
@@ -358,6 +374,8 @@ type tr2 struct {
 	extOK    bool // an external function field is being read on purpose (call / nil test)
 	// receiver of a state-passing method (written through): every return also returns it
 	mutRecv types.Object
+	selfRec *types.Func // the self-recursive function being translated (calls pass the fuel)
+	curSeq  int         // emission rank of the function being translated
 }
 
 func (t *tr2) fail(n ast.Node, f string, a ...any) {
@@ -404,20 +422,53 @@ func isBytePtr(ty types.Type) bool {
 	return ok && b.Kind() == types.Uint8
 }
 
-// isBytes: []T / [N]T with T an integer type, and string (its bytes; immutable in Go).
+// floatKind: float32 / float64 are their IEEE-754 BIT PATTERNS (Z). No arithmetic and no comparison is
+// translated on them: only math.FloatNNbits / FloatNNfrombits (identities on the pattern) and the
+// exact widening float64(float32) (go_f32_widen). float32(float64) (rounding) is refused.
+func floatKind(ty types.Type) (ikind, bool) {
+	b, ok := ty.Underlying().(*types.Basic)
+	if !ok {
+		return ikind{}, false
+	}
+	switch b.Kind() {
+	case types.Float64:
+		return ikind{false, 64}, true
+	case types.Float32:
+		return ikind{false, 32}, true
+	}
+	return ikind{}, false
+}
+
+func numElem(ty types.Type) bool {
+	if _, ok := intKind(ty); ok {
+		return true
+	}
+	_, ok := floatKind(ty)
+	return ok
+}
+
+// isBytes: []T / [N]T with T an integer (or float bit-pattern) type, and string (its bytes).
 func isBytes(ty types.Type) bool {
 	if isString(ty) {
 		return true
 	}
 	switch u := ty.Underlying().(type) {
 	case *types.Slice:
-		_, ok := intKind(u.Elem())
-		return ok
+		return numElem(u.Elem())
 	case *types.Array:
-		_, ok := intKind(u.Elem())
-		return ok
+		return numElem(u.Elem())
 	}
 	return false
+}
+
+// isSumList: []I with I a registered sum interface (list I): nil, make(_, 0, c), append of elements, len.
+func isSumList(ty types.Type) (*sumInfo, bool) {
+	sl, ok := ty.Underlying().(*types.Slice)
+	if !ok {
+		return nil, false
+	}
+	si := sumOf(sl.Elem())
+	return si, si != nil
 }
 
 func isArray(ty types.Type) (int64, bool) {
@@ -506,8 +557,14 @@ func (t *tr2) typeOK(ty types.Type) bool {
 	if _, ok := absIntKind(ty); ok {
 		return true
 	}
+	if _, ok := floatKind(ty); ok {
+		return true
+	}
 	if _, ok := t.isStructList(ty); ok {
 		return true
+	}
+	if si, ok := isSumList(ty); ok {
+		return t.g.mods[modPath+"/"+si.pkg] != ""
 	}
 	if si := sumOf(ty); si != nil {
 		return t.g.mods[modPath+"/"+si.pkg] != ""
@@ -764,6 +821,13 @@ func (t *tr2) ctype(n ast.Node, ty types.Type) string {
 	if _, ok := absIntKind(ty); ok {
 		return "Z"
 	}
+	if _, ok := floatKind(ty); ok {
+		return "Z"
+	}
+	if si, ok := isSumList(ty); ok && t.typeOK(ty) {
+		t.useSum(n, si, ty.Underlying().(*types.Slice).Elem())
+		return "(list " + t.q(t.g.mods[modPath+"/"+si.pkg], si.name) + ")"
+	}
 	if nn, ok := t.isStructList(ty); ok {
 		r := t.record(nn)
 		return "(list " + t.q(r.mod, r.name) + ")"
@@ -825,6 +889,12 @@ func (t *tr2) zero(n ast.Node, ty types.Type) string {
 	}
 	if _, ok := absIntKind(ty); ok {
 		return "0"
+	}
+	if _, ok := floatKind(ty); ok {
+		return "0"
+	}
+	if _, ok := isSumList(ty); ok {
+		return "[]"
 	}
 	if _, ok := t.isStructList(ty); ok {
 		return "[]"
@@ -953,7 +1023,7 @@ func runV2(ci *chainImporter, repo, outPath, manifestPath string) int {
 				g.errs = append(g.errs, fmt.Sprintf("package %s: function %s has no type information", tg.Pkg, fn))
 				continue
 			}
-			g.fns[obj] = &fnInfo{mod: mod, name: coqFnName(fn), decl: fd, mut: ps.t.writesReceiver(fd)}
+			g.fns[obj] = &fnInfo{mod: mod, name: coqFnName(fn), decl: fd, mut: ps.t.writesReceiver(fd), fuel: ps.t.selfRecursive(fd, obj), seq: len(g.fns)}
 			ps.fds = append(ps.fds, fd)
 		}
 		pkgs = append(pkgs, ps)
@@ -1088,6 +1158,9 @@ func runV2(ci *chainImporter, repo, outPath, manifestPath string) int {
 }
 
 func (r *recInfo) emit(t *tr2) string {
+	if r.inSum {
+		return "" // declared with its sum interface (mutual Inductive)
+	}
 	var b strings.Builder
 	flds := []string{}
 	left := []string{}
@@ -1208,15 +1281,28 @@ func (t *tr2) function(fd *ast.FuncDecl) string {
 			return true
 		})
 	}
+	if fi.fuel {
+		params = append([]string{"(fuel_ : nat)"}, params...)
+	}
 	if t.stubOnly {
 		// the body left the subset: emit a stub with the right type that always panics, so that the
 		// rest of Gen2.v still compiles and exactly the bridge lemmas about this function (and about
 		// its translated callers) stop checking
 		return fmt.Sprintf("Definition %s %s : gres %s :=\n GPanic.", fi.name, strings.Join(params, " "), rty)
 	}
+	t.curSeq = fi.seq
+	t.selfRec = nil
+	if fi.fuel {
+		t.selfRec = obj
+	}
 	body := t.stmts(fd.Body.List, c, func() string { return end })
 	if strings.Contains(body, noRest) {
 		t.fail(fd, "function %s can fall off its end without a return", fi.name)
+	}
+	if fi.fuel {
+		// a self-recursive function: structural recursion on explicit fuel; out of fuel = GPanic (the
+		// bridge lemmas quantify over sufficient fuel). Inside the body fuel_ is the predecessor.
+		return fmt.Sprintf("Fixpoint %s %s {struct fuel_} : gres %s :=\n match fuel_ with\n | O => GPanic\n | S fuel_ =>\n %s\n end.", fi.name, strings.Join(params, " "), rty, body)
 	}
 	return fmt.Sprintf("Definition %s %s : gres %s :=\n %s.", fi.name, strings.Join(params, " "), rty, body)
 }
@@ -1386,8 +1472,12 @@ func (t *tr2) useSum(n ast.Node, si *sumInfo, ty types.Type) {
 	t.g.sumSeen[si] = true
 	mod := t.g.mods[modPath+"/"+si.pkg]
 	pkg := ty.(*types.Named).Obj().Pkg()
+	save := t.mod
+	t.mod = mod
+	defer func() { t.mod = save }()
 	var b strings.Builder
 	fmt.Fprintf(&b, "(* interface %s as the sum of its registered implementations *)\nInductive %s :=\n| %s_nil", si.name, si.name, si.name)
+	var mutual []*recInfo
 	for _, impl := range si.impls {
 		tn, _ := pkg.Scope().Lookup(strings.TrimPrefix(impl, "*")).(*types.TypeName)
 		if tn == nil {
@@ -1405,8 +1495,55 @@ func (t *tr2) useSum(n ast.Node, si *sumInfo, ty types.Type) {
 			arg = "(option " + r.name + ")"
 		}
 		fmt.Fprintf(&b, "\n| %s (v_ : %s)", sumCtor(si, impl), arg)
+		// an implementation that holds values of the interface (a tree node) is declared in the
+		// same mutual block
+		for _, f := range r.fields {
+			if !f.ok || f.ty == nil {
+				continue
+			}
+			if fs, isL := isSumList(f.ty); (isL && fs == si) || sumOf(f.ty) == si {
+				if !r.inSum {
+					r.inSum = true
+					mutual = append(mutual, r)
+				}
+			}
+		}
 	}
-	b.WriteString(".\n\n")
+	for _, r := range mutual {
+		args := []string{}
+		for _, f := range r.fields {
+			if f.ok {
+				args = append(args, fmt.Sprintf("(%s_ : %s)", f.coq, t.fieldType(f)))
+			}
+		}
+		fmt.Fprintf(&b, "\nwith %s := mk_%s %s", r.name, r.name, strings.Join(args, " "))
+	}
+	b.WriteString(".\n")
+	for _, r := range mutual {
+		oks := []recField{}
+		for _, f := range r.fields {
+			if f.ok {
+				oks = append(oks, f)
+			}
+		}
+		for i, f := range oks {
+			pats := make([]string, len(oks))
+			for j := range pats {
+				pats[j] = "_"
+			}
+			pats[i] = "x_"
+			fmt.Fprintf(&b, "Definition %s (r_ : %s) : %s := match r_ with mk_%s %s => x_ end.\n", f.coq, r.name, t.fieldType(f), r.name, strings.Join(pats, " "))
+		}
+		for i, f := range oks {
+			args := make([]string, len(oks))
+			for j, g := range oks {
+				args[j] = "(" + g.coq + " r_)"
+			}
+			args[i] = "v_"
+			fmt.Fprintf(&b, "Definition set_%s (r_ : %s) (v_ : %s) : %s := mk_%s %s.\n", f.coq, r.name, t.fieldType(f), r.name, r.name, strings.Join(args, " "))
+		}
+	}
+	b.WriteString("\n")
 	t.g.sumDecl[mod] = append(t.g.sumDecl[mod], b.String())
 }
 
@@ -1489,4 +1626,18 @@ func (t *tr2) usesIface(r *recInfo, seen map[*recInfo]bool) bool {
 		}
 	}
 	return false
+}
+
+// selfRecursive: the body calls the function itself.
+func (t *tr2) selfRecursive(fd *ast.FuncDecl, obj *types.Func) bool {
+	found := false
+	ast.Inspect(fd.Body, func(n ast.Node) bool {
+		if c, ok := n.(*ast.CallExpr); ok {
+			if id, ok := c.Fun.(*ast.Ident); ok && t.info.Uses[id] == obj {
+				found = true
+			}
+		}
+		return !found
+	})
+	return found
 }
